@@ -46,7 +46,7 @@ def run(prog: Program, res: Result) -> None:
     res.floor("model_copy-sites", 10)
     apply_agent_facts(prog, res, P, facts, only=CORE_RULES, rule_map={k: "R1-recorded-core-immutable" for k in CORE_RULES})
     sp = packaging.check_sign_parity(prog, res, P)
-    packaging.check_packaging(prog, res, P)
+    packaging.check_packaging(prog, res, P, need_fresh=True)
 
     # auxiliary-field in-place updates of agents: notes, not violations
     resolver = Resolver(prog, None)
